@@ -254,7 +254,7 @@ Proof. intros R A s m H. destruct m; cbn [stR stRk] in *; auto. Qed.
      B  : from there up to send_tx_queue
      C  : from there to the timer tail. *)
 Section PollStaged.
-Variables A0 A B C : vsock -> Prop.
+Variables A0 A B1 B2 C D : vsock -> Prop.
 
 Definition stU (P : vsock -> Prop) {X} (m : step X) : Prop :=
   match m with SOk s' _ => P s' | _ => True end.
@@ -270,17 +270,17 @@ Proof. intros P X m H. destruct m; cbn [stU stC] in *; auto. Qed.
 Hypothesis H_start : forall s, A0 s -> A (poll_start s).
 Hypothesis H_syn_ack : forall s, A s -> stC A (maybe_send_syn_ack s).
 Hypothesis H_send_ack : forall s, A s -> stC A (send_ack s).
-Hypothesis H_pim : forall s, A s -> stC B (process_all_incoming_messages cci s).
-Hypothesis H_flush : forall s rx1 fb w, B s ->
-  rx_flush (v_rx s) = (rx1, FlOk fb, w) -> B (add_wakes (set_rx s rx1) (rx_wakes w)).
-Hypothesis H_split : forall s, B s -> stU B (split_tx_queue_into_segments cci s).
-Hypothesis H_stq : forall s, B s -> v_restart s = false ->
+Hypothesis H_pim : forall s, A s -> stC B1 (process_all_incoming_messages cci s).
+Hypothesis H_flush : forall s rx1 fb w, B1 s ->
+  rx_flush (v_rx s) = (rx1, FlOk fb, w) -> B2 (add_wakes (set_rx s rx1) (rx_wakes w)).
+Hypothesis H_split : forall s, B2 s -> stU B2 (split_tx_queue_into_segments cci s).
+Hypothesis H_stq : forall s, B2 s -> v_restart s = false ->
   stU (fun s' => (v_restart s' = true -> A0 s') /\
                  (v_restart s' = false -> v_transport_pending s' = false -> C s'))
       (send_tx_queue cci s).
 Hypothesis H_fw1 : forall s, C s -> C (transition_to_fin_wait_1 s).
 Hypothesis H_fin : forall s, C s -> stC C (maybe_send_fin s).
-Hypothesis H_msa : forall s, C s -> stC C (maybe_send_ack s).
+Hypothesis H_msa : forall s, C s -> stC D (maybe_send_ack s).
 
 Hypothesis N_syn_ack : forall s, no_restart s (maybe_send_syn_ack s).
 Hypothesis N_send_ack : forall s, no_restart s (send_ack s).
@@ -292,7 +292,7 @@ Hypothesis N_msa : forall s, no_restart s (maybe_send_ack s).
 
 Definition tail_shape (s' : vsock) : Prop :=
   v_transport_pending s' = true \/
-  exists sb, C sb /\ v_transport_pending sb = false /\ v_restart sb = false /\
+  exists sb, D sb /\ v_transport_pending sb = false /\ v_restart sb = false /\
     state_is_closed (v_state sb) (o_wait_for_last_ack (v_opts sb)) = false /\ s' = poll_tail sb.
 
 Definition brS (r : body_res) : Prop :=
@@ -326,7 +326,7 @@ Proof.
   { destruct (immediate_ack_to_transmit s1); [apply N_send_ack | intros _; exact R1]. }
   { destruct (immediate_ack_to_transmit s1); [apply H_send_ack; exact HA1 | intros _; exact HA1]. }
   intros s2 _ HA2 R2 _.
-  apply (pend_S _ B _ _ s2 R2); [apply N_pim | apply H_pim; exact HA2 |]. intros s3 _ HB3 R3 T3.
+  apply (pend_S _ B1 _ _ s2 R2); [apply N_pim | apply H_pim; exact HA2 |]. intros s3 _ HB3 R3 T3.
   destruct (rx_flush (v_rx s3)) as [[rx1 fr] w] eqn:Efl. destruct fr as [fb|]; [|exact I].
   pose proof (H_flush s3 rx1 fb w HB3 Efl) as HB4.
   assert (R4 : v_restart (add_wakes (set_rx s3 rx1) (rx_wakes w)) = false) by exact R3.
@@ -352,7 +352,7 @@ Proof.
   set (s7 := if should_close_on_own_initiative s6 then transition_to_fin_wait_1 s6 else s6) in *.
   clearbody s7.
   apply (pend_S _ C _ _ s7 R7); [apply N_fin | apply H_fin; exact HC7 |]. intros s8 _ HC8 R8 _.
-  apply (pend_S _ C _ _ s8 R8); [apply N_msa | apply H_msa; exact HC8 |]. intros s9 _ HC9 R9 T9.
+  apply (pend_S _ D _ _ s8 R8); [apply N_msa | apply H_msa; exact HC8 |]. intros s9 _ HC9 R9 T9.
   destruct (state_is_closed _ _) eqn:C9; [exact I|].
   assert (Hs : forall sx, sx = poll_tail s9 -> tail_shape sx).
   { intros sx ->. right. exists s9. repeat split; assumption. }
